@@ -140,6 +140,7 @@ def run(ctx):
             if got != exp or p.returncode != exp_rc or mpending:
                 bad.append((args, rl, got, exp, p.returncode, exp_rc))
         root_directory(ctx, forest)
+        no_empty_batch(ctx, forest)
         ctx.sample({"example_command": "find ROOT -sorted -type f -execdir fuv record fixed {} + -name Q -quit", "stack_limit": 262144})
         for args, rl, got, exp, rc, exp_rc in bad[:2]:
             first = next(((i, a, b) for i, (a, b) in enumerate(zip(got + [None], exp + [None])) if a != b), None)
@@ -157,6 +158,31 @@ def run(ctx):
                            "explain": "C08_run fixes the invocations of the model (each reached path once, in order, single directory per -execdir run, nothing pending, exit status)"})
     finally:
         forest.close()
+
+
+def no_empty_batch(ctx, forest):
+    """CMD is run on paths: when the fixed arguments leave no room for a path, that path is diagnosed (exit 1) and CMD is not run with the
+    fixed arguments alone.  Empty environment and an 8 MiB stack, so that only the argument vector decides the limits."""
+    import resource
+    d = os.path.join(forest.dir, b"neb")
+    os.makedirs(os.path.join(d, b"tree"))
+    for n in (b"f", b"g" * 200):
+        open(os.path.join(d, b"tree", n), "wb").close()
+    with open(os.path.join(d, b"rec"), "w") as f:
+        f.write("#!/bin/sh\necho \"run $#\"\n")
+    os.chmod(os.path.join(d, b"rec"), 0o755)
+    fixed = ["a" * 131000] * 15
+    for bl in range(124000, 126001, 100):
+        p = subprocess.run([fw.FIND, "tree", "-type", "f", "-exec", "./rec"] + fixed + ["b" * bl, "{}", "+"], stdout=subprocess.PIPE, stderr=subprocess.PIPE,
+                           cwd=d, env={}, timeout=120, preexec_fn=lambda: resource.setrlimit(resource.RLIMIT_STACK, (8 << 20, 8 << 20)))
+        runs = [int(l.split()[1]) for l in p.stdout.decode().splitlines() if l.startswith("run ")]
+        ctx.count(("no-empty-batch", bl), any(r != 18 for r in runs) or p.returncode != 0, "no-empty-batch")
+        if any(r <= 16 for r in runs) or b"panicked" in p.stderr or p.returncode not in (0, 1):
+            ctx.violation("find tree -type f -exec ./rec <15 x 131000 bytes> <%d bytes> {} +: invocations with %s arguments (16 are fixed), exit %d: CMD was run without a path"
+                          % (bl, runs, p.returncode),
+                          {"property": "C08", "kind": "no-empty-batch", "last_fixed_argument_bytes": bl, "argument_counts": runs, "exit": p.returncode,
+                           "stderr": p.stderr.decode("utf-8", "replace")[:200]})
+            return
 
 
 def root_directory(ctx, forest):
